@@ -617,21 +617,23 @@ func (s *SQLiteStore) enqueueWithLimit(env Envelope, headersJSON any, traceJSON 
 		return err
 	}
 
-	if count >= s.maxDepth {
-		if s.dropPolicy == "drop_oldest" {
-			dropped, err := s.dropOldestQueued(ctx, conn)
-			if err != nil {
-				return err
-			}
-			if !dropped {
-				s.queueLikelyFull.Store(true)
-				return ErrQueueFull
-			}
-			count--
-		} else {
+	// Make room until the new item fits, like EnqueueBatch and the memory
+	// store do (more than one eviction is needed only when an operator
+	// requeue/resume has lifted the active count above max_depth).
+	for count >= s.maxDepth {
+		if s.dropPolicy != "drop_oldest" {
 			s.queueLikelyFull.Store(true)
 			return ErrQueueFull
 		}
+		dropped, err := s.dropOldestQueued(ctx, conn)
+		if err != nil {
+			return err
+		}
+		if !dropped {
+			s.queueLikelyFull.Store(true)
+			return ErrQueueFull
+		}
+		count--
 	}
 
 	var deadReason any
